@@ -15,7 +15,7 @@ from .. import exact, gen, probes
 RULE = ("counts 0..+-2^52 by magnitude decade x fractions {uniform, +-1/2, +-1/4, tiny (1e-300..1e-17), unnormalised (n, 7.3)} x operand kind "
         "{int, float, np.float64, np.float32, np.int64, 0-d array, n-d array, Quantity[cycle], Quantity[dimensionless/percent], Phase} x "
         "both operand orders x real/imaginary, for construction (one and two numbers), + - neg pos abs, * / by dimensionless factors "
-        "{2,3,1/2,1/3,random,+-1e3,1j}, // % divmod by cycle Quantities and Phases, sin/cos/exp(i p). Every Phase.__new__ and "
+        "{2,3,1/2,1/3,random,+-1e3,1j}, // % divmod by cycle Quantities and Phases, in-place operators and out= with Phase targets (incl. targets of the other real/imaginary character), sin/cos/exp(i p). Every Phase.__new__ and "
         "Phase.__array_ufunc__ call is compared elementwise with exact rational arithmetic on the operands (fractions.Fraction of the "
         "two-double parts). Non-trivial = an elementwise comparison with |exact count| <= 2^52; distinct = (op, operand kind, order, "
         "count decade, fraction kind, real/imag).")
@@ -142,6 +142,9 @@ class PhaseMonitor:
         return self
 
     def pre(self, point, args, kwargs):
+        if point.name == "__array_ufunc__" and kwargs.get("out") is not None:
+            # in-place forms overwrite an operand: keep copies of the Phase operands
+            return [i.copy() if isinstance(i, Phase) else i for i in args[3:]]
         return None
 
     def post(self, point, args, kwargs, tok, res, exc):
@@ -150,10 +153,20 @@ class PhaseMonitor:
             self.post_new(args, kwargs, res, exc)
             return
         self_, fn, method = args[0], args[1], args[2]
-        inputs = args[3:]
+        inputs = tuple(tok) if tok is not None else args[3:]
+        if tok is not None:
+            self_ = next((t for t, a in zip(tok, args[3:]) if a is args[0]), self_)
         name = ARITH.get(fn)
-        if name is None or method != "__call__" or kwargs.get("out") is not None:
+        if name is None or method != "__call__":
             return
+        out_kw = kwargs.get("out")
+        if out_kw is not None:
+            # out= / in-place operators: judged when the single target is a Phase (the returned object must be that target)
+            if not (isinstance(out_kw, tuple) and len(out_kw) == 1 and isinstance(out_kw[0], Phase)) or name in ("floor_divide", "remainder", "divmod"):
+                return
+            if exc is None and res is not NotImplemented and res is not out_kw[0]:
+                ctx.violation("phase_" + name, "out= target was not returned", None, {"what": "out_identity", "op": name})
+                return
         ctx.count("ufunc_events")
         o = "phase_" + name
         kinds = tuple(type(i).__name__ for i in inputs)
@@ -413,6 +426,59 @@ def wl_arith(ctx, idx, rng):
         ctx.bucket(opname, ok_, dec, fk, imaginary)
 
 
+def wl_inplace(ctx, idx, rng):
+    """In-place operators and out= with Phase targets (incl. results whose real/imaginary character differs from the target)."""
+    dec = COUNT_DECADES[idx % (len(COUNT_DECADES) - 1)]
+    fk = FRAC_KINDS[(idx // len(COUNT_DECADES)) % len(FRAC_KINDS)]
+    shape = gen.pick(rng, [(), (3,)])
+    imaginary = rng.random() < 0.3
+    p = make_phase(rng, dec, fk, shape, imaginary)
+    q = make_phase(rng, gen.pick(rng, [0, 1, 3]), "uniform", shape, imaginary)
+    form = ["imul2", "imul_j", "idiv_j", "iadd", "isub", "abs_out_self", "neg_out_other", "mul_out_other", "idiv3"][idx % 9]
+    with probes.quiet():
+        vals0, im0 = exact.phase_fraction(p)
+        qv, _ = exact.phase_fraction(q)
+    tgt = make_phase(rng, 0, "zero", shape, not imaginary)      # a target of the *other* character
+
+    def run():
+        nonlocal p
+        if form == "imul2":
+            p *= 2.0
+            return p, [v * 2 for v in vals0], im0
+        if form == "imul_j":
+            p *= 1j
+            return p, [(-v if im0 else v) for v in vals0], not im0
+        if form == "idiv_j":
+            p /= 1j
+            return p, [(v if im0 else -v) for v in vals0], not im0
+        if form == "idiv3":
+            p /= 3.0
+            return p, [v / 3 for v in vals0], im0
+        if form == "iadd":
+            p += q
+            return p, [a + b for a, b in zip(vals0, qv)], im0
+        if form == "isub":
+            p -= q
+            return p, [a - b for a, b in zip(vals0, qv)], im0
+        if form == "abs_out_self":
+            r = np.abs(p, out=p)
+            return r, [abs(v) for v in vals0], False
+        if form == "neg_out_other":
+            r = np.negative(p, out=tgt)
+            return r, [-v for v in vals0], im0
+        r = np.multiply(p, 1j, out=tgt)
+        return r, [(-v if im0 else v) for v in vals0], not im0
+    desc = {"form": form, "count_decade": dec, "frac_kind": fk, "imag": imaginary}
+    ctx.describe_case(desc)
+    got, exc = ctx.call("phase_inplace", run, where=form)
+    if exc is not None:
+        return
+    res, want, want_imag = got
+    ctx.count("oracle[phase_inplace]")
+    check_phase_result(ctx, "phase_inplace", res, want, want_imag, shape, {"op": form, "inplace": True})
+    ctx.bucket("inplace", form, dec, fk, imaginary)
+
+
 def wl_new(ctx, idx, rng):
     dec = COUNT_DECADES[idx % len(COUNT_DECADES)]
     fk = FRAC_KINDS[(idx // len(COUNT_DECADES)) % len(FRAC_KINDS)]
@@ -530,6 +596,7 @@ def workloads(ctx):
     q = ctx.tier == "quick"
     base = len(COUNT_DECADES) * len(FRAC_KINDS) * len(OPERANDS)
     return [("arith", base * (4 if q else 80), wl_arith), ("new", 480 * (1 if q else 20), wl_new),
+            ("inplace", 378 * (1 if q else 20), wl_inplace),
             ("divmod", 600 if q else 20000, wl_divmod), ("near_multiple", 150 if q else 3000, wl_near_multiple),
             ("trig", 160 if q else 3200, wl_trig)]
 
@@ -545,4 +612,5 @@ def finalize(ctx):
     for op in ("add", "subtract", "multiply", "divide", "negative", "absolute"):
         ctx.require(f"oracle[phase_{op}]", 50, f"{op} oracle")
     ctx.require("oracle[phase_new]", 300, "construction oracle")
+    ctx.require("oracle[phase_inplace]", 200, "in-place / out= oracle")
     ctx.require("nontrivial[phase]", 1500, "elementwise comparisons within 2^52")
